@@ -275,7 +275,16 @@ def monitor_c06(ctx):
     a = _run('c06', 'c06', pays, 'all 225 ordered pairs of binary operators on atom operands: the tree of `a o1 b o2 c` vs the parenthesisation '
              'dictated by the live lexer.precedence table (model-free)')
     b = _run('c06_derivable', 'c06_derivable', [{}], 'texts the published grammar derives that must be accepted')
-    return _merge('c06', [a, b])
+    cps = ([0xA0, 0x1680, 0x202F, 0x205F, 0x3000, 0x200B, 0x200C, 0x200D, 0x2060, 0xFEFF, 0x85, 0x2028, 0x2029, 0x0B, 0x0C, 0x1C, 0x1D, 0x1E, 0x1F,
+            0x00, 0x01, 0x07, 0x08, 0x1B, 0x7F, 0xAD, 0x180E, 0x061C, 0x200E, 0x200F, 0xFFF9, 0xFFFA, 0xFFFB, 0xE0001, 0x2212, 0xD7, 0xF7, 0x201C, 0x201D,
+            0x2018, 0x2019, 0xFF08, 0xFF09, 0x037E, 0xFF0C, 0xFF1B, 0x3001, 0x2044, 0x2215, 0x2217, 0xFE50, 0xFF1D, 0x2260, 0x2264, 0xB7, 0x2022, 0x24, 0x3F,
+            0x40, 0x5C, 0x5E, 0x60, 0x7E, 0x26] + list(range(0x2000, 0x200B)) + list(range(0x202A, 0x202F)) + list(range(0x2066, 0x206A)))
+    rng = random.Random(f'{ctx["seed"]}/mon-c06-chars')
+    cps += [rng.randrange(0x80, 0x3000) for _ in range(sz(ctx, 150, 1500))] + [rng.randrange(0x3000, 0x11000) for _ in range(sz(ctx, 50, 500))]
+    c = _run('c06_chars', 'c06_chars', [{'cps': cps[i:i + 40]} for i in range(0, len(cps), 40)],
+             'every kind of non-alphabet character (typographic spaces, zero-width and bidi marks, BOM, controls, look-alike punctuation, random '
+             'code points; oracle: stdlib \\w): between tokens the text is rejected, inside string literals and %...% names it is kept verbatim')
+    return _merge('c06', [a, b, c])
 
 
 # ------------------------------------------------------------------ C08
@@ -367,7 +376,17 @@ def monitor_c10(ctx):
     e = _run('c10_reenter', 'c10_reenter', [{'scenarios': RE}],
              'a host callable that evaluates another program on the same SqParser with another mapping while the outer evaluation runs: '
              'separate scope stacks (outer assignments / parameters / host names unaffected, inner ones land in the inner mapping)')
-    return _merge('c10', [a, b, c, d, e])
+    SQ = []
+    for B, arg, val in (('len', '[1, 2]', '2'), ('str', '5', '5'), ('sum', '[1, 2]', '3'), ('max', '[1, 5]', '5'), ('abs', '0 - 3', '3')):
+        SQ += [[[f'fz = v => {B}(v); fz({arg})', val], [f'{B} = v => 77', None], [f'fz({arg})', '77'], [f'{B}({arg})', '77'], [f'map([{arg}], fz)', '[77]']],
+               [[f'fz = v => {B}(v)', None], [f'{B}({arg})', val], [f'{B} = v => 77', None], [f'fz({arg})', '77']],
+               [[f'gz = w => {B}; fz = v => apply(gz(0), v); fz({arg})', val], [f'{B} = v => 77', None], [f'fz({arg})', '77']],
+               [[f'fz = v => {B}(v); fz({arg})', val], [f'{B} = 5', None], [f'try_apply(fz, {arg})', 'None'], [f'{B}', '5']],
+               [[f'k9 = 1; fz = v => k9; fz(0)', '1'], ['k9 = 2', None], ['fz(0)', '2'], ['k9', '2']]]
+    f = _run('c10_seq', 'c10_seq', [{'scenarios': SQ[i:i + 5]} for i in range(0, len(SQ), 5)],
+             'a lambda stored in the names mapping by one eval, a builtin name it uses rebound in that mapping by a later eval, the lambda called '
+             'again: the name resolves to the NEW binding')
+    return _merge('c10', [a, b, c, d, e, f])
 
 
 # ------------------------------------------------------------------ C11 / C17
